@@ -45,6 +45,7 @@ def dispatch (line : String) : String :=
     | "c19" => Rip.Driver.C19.handle rest
     | "c08" => Rip.Driver.C08.handle rest
     | "c04" => Rip.Driver.C04.handle rest
+    | "c04s" => Rip.Driver.C04.Seek.handle rest
     | "c05" => Rip.Driver.C05.handle rest
     | "c07" => Rip.Driver.C07.handle rest
     | "c16c" => Rip.Driver.C16.handleC rest
